@@ -127,13 +127,14 @@ namespace xsimd
 
             alignas(A::alignment()) T concat_buffer[size];
 
+            // [other[i], ..., other[size - 1], self[0], ..., self[i - 1]]
             for (std::size_t j = 0; j < (size - i); ++j)
             {
                 concat_buffer[j] = other_buffer[i + j];
-                if (j < i)
-                {
-                    concat_buffer[size - 1 - j] = self_buffer[i - 1 - j];
-                }
+            }
+            for (std::size_t j = 0; j < i; ++j)
+            {
+                concat_buffer[size - i + j] = self_buffer[j];
             }
             return batch<T, A>::load_aligned(concat_buffer);
         }
